@@ -521,7 +521,7 @@ def no_sync_blocking(ctx):
 
 # ------------------------------------------------------------------ C11
 @rule("C11.ACTUAL-PROVENANCE", ["C11", "C20"], """`actual` is false in foreign-kind replies, true in a target's own announcements, and for an aggregate it is 'some dependency reported actual'
-      (a set filled only under a true incoming `actual`)""", "K5", floor=6)
+      (a set filled only under a true incoming `actual`)""", "K5", floor=4)
 def actual_provenance(ctx):
     r = ctx.r
     from rules_c01 import classify_ok_site
